@@ -74,14 +74,14 @@ Print Assumptions C07_valid_physical_converts.
 
 (* a continuous, strictly increasing piecewise-linear method can always encode *)
 Theorem C07_scale_linear_encodes : forall s segs y,
-  0 < num s -> continuous_increasing (s :: segs) ->
+  0 < num s * den s -> continuous_increasing (s :: segs) ->
   valid_phys (MScaleLinear (s :: segs)) (CInt y) = true ->
   exists x, p2i (MScaleLinear (s :: segs)) (CInt y) = COk (CInt x).
 Proof. exact scale_linear_encodes. Qed.
 Print Assumptions C07_scale_linear_encodes.
 
 Theorem C07_scale_linear_encodes_decreasing : forall s segs y,
-  num s < 0 -> continuous_decreasing (s :: segs) ->
+  num s * den s < 0 -> continuous_decreasing (s :: segs) ->
   valid_phys (MScaleLinear (s :: segs)) (CInt y) = true ->
   exists x, p2i (MScaleLinear (s :: segs)) (CInt y) = COk (CInt x).
 Proof. exact scale_linear_encodes_decreasing. Qed.
